@@ -35,6 +35,11 @@ type Scenario struct {
 	Symmetric   []string // see vsched.Config.Symmetric
 	StartMs     int64    // virtual clock start (unix ms); 0 = default
 	FreeCost    int      // see vsched.Config.FreeSwitchCost
+	// AutoDelay > 0: if the schedules with 0 preemptions alone (the free choices at
+	// blocking points) number more than AutoDelay, the scenario is explored with
+	// delay bounding (FreeCost = 1) and bound AutoDelayBound instead.
+	AutoDelay      int64
+	AutoDelayBound int
 	// New returns a fresh per-execution state.
 	New func() Execution
 }
@@ -85,6 +90,23 @@ func Explore(c *lib.Ctx, sc *Scenario) {
 	if o1 != o2 || len(r1.Points) != len(r2.Points) {
 		lib.Infra("scenario %s is not deterministic under replay:\n%s\nvs\n%s (points %d vs %d)",
 			sc.Name, o1, o2, len(r1.Points), len(r2.Points))
+	}
+	if sc.AutoDelay > 0 && sc.FreeCost == 0 {
+		probe := explore.Explore(func(ch *explore.Chooser) string {
+			x := sc.New()
+			out := vsched.Run(vsched.Config{MaxSteps: sc.MaxSteps, TimerBudget: sc.TimerBudget,
+				Monitor: x.Monitor, Symmetric: sc.Symmetric, StartMs: sc.StartMs}, adapter{ch}, x.Main)
+			obs, _ := x.Finish(out)
+			return obs
+		}, explore.Options{Bound: 0, MaxExecutions: sc.AutoDelay, Stop: c.Expired})
+		if !probe.Completed {
+			sc.FreeCost = 1
+			sc.MaxBound = sc.AutoDelayBound
+			c.Count("delay_bounded_scenarios", 1)
+			if c.Shard == 0 {
+				c.Note("scenario %s: more than %d schedules without any preemption; explored with delay bounding, bound %d", sc.Name, sc.AutoDelay, sc.MaxBound)
+			}
+		}
 	}
 	outcomes := map[uint64]bool{}
 	for bound := 0; bound <= sc.MaxBound; bound++ {
